@@ -433,4 +433,90 @@ def splicePieces : List ShPiece := Gen.shSqSplicePieces.map fun p =>
 def defaultDelim : Char := Char.ofNat Gen.intDelim
 def defaultRangeDelim : Char := Char.ofNat Gen.intRangeDelim
 
+/-! ## multi-character delimiters (round 3)
+
+`format_int_list`, `parse_int_list`, `complement_int_list`, `int_ranges_from_int_list` with `delim` /
+`range_delim` arbitrary NON-EMPTY strings (the functions of `Model.lean` have one-character delimiters). -/
+
+/-- `s.startswith(d)` -/
+def isPre : Str → Str → Bool
+  | [], _ => true
+  | _ :: _, [] => false
+  | a :: as, b :: bs => a = b && isPre as bs
+
+/-- the scanning loop of `s.split(d)`: `k` = characters of a matched separator still to skip,
+    `cur` = the current piece, reversed -/
+def splitGo (d : Str) : Nat → Str → Str → List Str
+  | _, cur, [] => [cur.reverse]
+  | k + 1, cur, _ :: cs => splitGo d k cur cs
+  | 0, cur, c :: cs =>
+    if isPre d (c :: cs) then cur.reverse :: splitGo d (d.length - 1) [] cs
+    else splitGo d 0 (c :: cur) cs
+
+/-- `s.split(d)` for a non-empty separator (leftmost, non-overlapping occurrences) -/
+def splitOnS (d s : Str) : List Str := splitGo d 0 [] s
+
+/-- `d in s` -/
+def containsS (d : Str) : Str → Bool
+  | [] => isPre d []
+  | c :: cs => isPre d (c :: cs) || containsS d cs
+
+def fmtRangeS (rd : Str) (cr : List Nat) : Str := toDigits (lmin cr) ++ rd ++ toDigits (lmax cr)
+
+def fmtStepS (rd : Str) (st : List Str × List Nat) (x : Nat) : List Str × List Nat :=
+  match st.2 with
+  | [] => (st.1, [x])
+  | [a] =>
+    if x = a + 1 then (st.1, [a, x])
+    else if a + 1 < x then (st.1 ++ [toDigits a], [x])
+    else st
+  | a :: b :: r =>
+    if x = (a :: b :: r).getLastD 0 + 1 then (st.1, st.2 ++ [x])
+    else if (a :: b :: r).getLastD 0 + 1 < x then (st.1 ++ [fmtRangeS rd st.2], [x])
+    else st
+
+def fmtFinishS (rd : Str) (st : List Str × List Nat) : List Str :=
+  match st.2 with
+  | [] => st.1
+  | [a] => st.1 ++ [toDigits a]
+  | _ => st.1 ++ [fmtRangeS rd st.2]
+
+def fmtTokensS (rd : Str) (l : List Nat) : List Str := fmtFinishS rd ((isort l).foldl (fmtStepS rd) ([], []))
+
+/-- `format_int_list(int_list, delim=d, range_delim=rd, delim_space=sp)` -/
+def formatIntListS (l : List Nat) (sp : Bool) (d rd : Str) : Str :=
+  join (if sp then d ++ [' '] else d) (fmtTokensS rd l)
+
+def parseTokS (rd : Str) (t : Str) : Option (List Nat) :=
+  if containsS rd t then
+    match mapM? pyInt? (splitOnS rd t) with
+    | some lims => some (rangeIncl (lmin lims) (lmax lims))
+    | none => none
+  else if t.isEmpty then some []
+  else match pyInt? t with
+    | some n => some [n]
+    | none => none
+
+/-- `parse_int_list(range_string, delim=d, range_delim=rd)` (`d`, `rd` non-empty) -/
+def parseIntListS (s : Str) (d rd : Str) : Option (List Nat) :=
+  match mapM? (parseTokS rd) (splitOnS d (strip s)) with
+  | some ls => some (isort ls.flatten)
+  | none => none
+
+def complementIntListS (s : Str) (a : Int) (e : Option Int) (d rd : Str) : Option Str :=
+  match parseIntListS s d rd with
+  | none => none
+  | some l =>
+    let e' : Int := match e with
+      | some e => e
+      | none => if l.isEmpty then a else (lmax l : Int) + 1
+    some (formatIntListS ((List.range e'.toNat).filter fun x => !l.contains x && !decide ((x : Int) < a)) false d rd)
+
+def intRangesS (s : Str) (d rd : Str) : Option (List (Nat × Nat)) :=
+  match parseIntListS s d rd with
+  | none => none
+  | some l =>
+    let t := formatIntList l
+    if t.isEmpty then some [] else mapM? boundsTok (splitOn ',' t)
+
 end C14
